@@ -117,6 +117,8 @@ RecBytes(fmt, sec, vn) == RecBytesTab[fmt][sec][vn]
 CONSTANT SubmeshStep,
          AnimBoneRule,     \* "table": MAOF bone count = entries of the offset table up to the first bone's data (as fixed, aa82f05)
                            \* "size" : (section size - 16) / 4, the pre-fix rule (named deviation, must be refuted)
+         RelocAdvanceAlways, \* FALSE as coded: an array whose original offset is already mapped (shared key-frame data) keeps
+                           \* its offset and does NOT advance the running offset; TRUE = named deviation (must be refuted)
          ViewBatchBytes    \* bytes per batch the WRITER of embedded views divides by: 24 as fixed (1115b56); 96 = pre-fix deviation
 CursorStepRaw(fmt, sec, vn) ==
   IF fmt = "m2" /\ sec = "animations" THEN (IF vn <= 256 THEN 32 ELSE 52) ELSE
@@ -363,6 +365,35 @@ AnimReaderBones(nbones, databytes) == IF AnimBoneRule = "size" THEN (16 + 4 * nb
 ReaderWriterAgree ==
   /\ \A nbones \in 0..3, databytes \in {0, 28, 76} : AnimReaderBones(nbones, databytes) = nbones
   /\ \A nbatch \in 0..5 : (nbatch * BatchBytes) \div ViewBatchBytes = nbatch
+
+\* The relocation map of a key-frame section: arrays arrive as <<original offset, length>> in the order the writer visits
+\* them; the map is a function original offset -> new offset; shared arrays (same original offset: several tracks alias one
+\* array) are mapped and emitted once.  RelocFold returns [map, cur, emitted] for arrays visited from `start`.
+RelocFold(arrs, start) ==
+  FoldLeft(LAMBDA st, a :
+             IF a[1] \in DOMAIN st.map
+             THEN [st EXCEPT !.cur = IF RelocAdvanceAlways THEN st.cur + a[2] ELSE st.cur]
+             ELSE [map |-> [o \in DOMAIN st.map \cup {a[1]} |-> IF o = a[1] THEN st.cur ELSE st.map[o]],
+                   cur |-> st.cur + a[2], emitted |-> st.emitted + a[2]],
+           [map |-> << >>, cur |-> start, emitted |-> 0], arrs)
+\* cursor behind the section = start + bytes emitted; every mapped array lies inside the emitted bytes; distinct arrays disjoint
+RelocConsistent ==
+  \A arrs \in UNION {[1..m -> ({1, 2, 3} \X {8, 16})] : m \in 0..4} :
+     (\A p, q \in 1..Len(arrs) : arrs[p][1] = arrs[q][1] => arrs[p][2] = arrs[q][2]) =>     \* an aliased array has one length
+     LET r == RelocFold(arrs, 100)
+         lenOf(o) == (CHOOSE p \in 1..Len(arrs) : arrs[p][1] = o)
+     IN  /\ r.cur = 100 + r.emitted
+         /\ \A o \in DOMAIN r.map : r.map[o] >= 100 /\ r.map[o] + arrs[lenOf(o)][2] <= 100 + r.emitted
+         /\ \A o1, o2 \in DOMAIN r.map : o1 # o2 =>
+               (r.map[o1] + arrs[lenOf(o1)][2] <= r.map[o2] \/ r.map[o2] + arrs[lenOf(o2)][2] <= r.map[o1])
+
+\* what the header of a converted model must carry: WotLK+ stores the NUMBER of skin profiles; upgrading a model with n
+\* embedded views yields n (1 if it had none); within WotLK+ the count is kept; up to TBC the views array itself is written
+ExpectedProfiles(vfrom, vto, nviews, srcprofiles) ==
+  IF VerNum(vto) <= 263 THEN -1
+  ELSE IF VerNum(vfrom) <= 263 THEN (IF nviews > 0 THEN nviews ELSE 1) ELSE srcprofiles
+ExpectedViewsAfterParse(vfrom, vto, nviews) ==
+  IF VerNum(vto) > 263 THEN 0 ELSE IF VerNum(vfrom) <= 263 THEN nviews ELSE 0
 
 \* the documented sizes agree with the field sums and with the writer's constants for every version
 SizesAgree ==
